@@ -60,7 +60,7 @@ STRESS_SCENARIOS = {
 }
 
 
-STRESS_FEAT = {"C17": ["blocking"], "C14": ["cyclerace"]}
+STRESS_FEAT = {"C17": ["blocking"], "C14": ["cyclerace", "slowlog"]}
 
 
 def stress(prop, tier, seed, ctx):
@@ -86,7 +86,7 @@ def stress(prop, tier, seed, ctx):
         bindir = build_feat(ctx)
         rep2 = os.path.join(ctx["BUILD"], f"stress_{prop}_allfeatures.json")
         rc, out, err = ctx["sh"]([os.path.join(bindir, "stress"), "--scenario", ",".join(STRESS_FEAT[prop]),
-                                  "--seconds", "1", "--seed", str(seed), "--report", rep2], timeout=3600)
+                                  "--seconds", "60" if tier == "thorough" else "1", "--seed", str(seed), "--report", rep2], timeout=3600)
         if rc not in (0, 3):
             raise ctx["Infra"](f"stress (all-features build) failed rc={rc}:\n" + err[-2000:])
         r2 = json.load(open(rep2))
